@@ -20,6 +20,9 @@ rules of C19 / C13 (what init stores is the keyword or a deep copy of the defaul
 
 Round 5: __eq__ walking __slots__ (scratch slots, descriptor flags); Packet.__str__ / __format__
 must be total because __repr__ formats nested packets with them.
+
+Round 6: Packet.unpack stores nothing on the new packet (parsed == built); a field value as the
+bare right operand of a %-format; __eq__ / __repr__ found through the MRO.
 """
 import ast
 
